@@ -166,6 +166,8 @@ def rand_set(rng, shape, fill):
     key = list(key)
     for ax in axes:
         key[ax] = rand_int_index(rng, shape[ax]) if rng.random() < 0.45 else rand_slice_json(rng, shape[ax])
+    if ell is None and rng.random() < 0.01:   # one index too many: NumPy raises IndexError
+        key = key + [rand_int_index(rng, shape[-1])]
     bare = bool(rng.random() < (0.9 if nd == 1 else 0.5))   # on 1-d a tuple of ints takes the index-list route
     op = {"form": "set", "key": key, "ell": ell, "bare": bare, "npint": bool(rng.random() < 0.15)}
     try:
@@ -485,6 +487,8 @@ CORPUS = [
         {"form": "fancy", "idxs": [[-1]], "bare": True, "asarray": False, "vshape": [], "vflat": [7], "vlist": False}]}),
     ("F-dok-fancy-raw-index", {"shape": [3], "fill": 0, "ops": [
         {"form": "fancy", "idxs": [[7]], "bare": True, "asarray": False, "vshape": [], "vflat": [5], "vlist": False}]}),
+    ("F-dok-1d-int-tuple", {"shape": [3], "fill": 0, "ops": [S([2], 5), S([-1], 7)]}),
+    ("F-dok-1d-int-tuple", {"shape": [3], "fill": 0, "ops": [S([1, 2], 7)]}),
     ("F-dok-empty-tuple-key", {"shape": [], "fill": 0, "ops": [S([], 4)]}),
     ("F-dok-empty-tuple-key", {"shape": [3], "fill": 0, "ops": [S([], 4)]}),
     ("F-dok-empty-tuple-key", {"shape": [2, 2], "fill": 2, "ops": [S([], 4, vshape=[2], vflat=[1, 3])]}),
@@ -593,9 +597,8 @@ def run(ctx):
         leg_exhaustive(ctx)
     ctx.notes["partial"] = {
         "setitem_refines_partial": "Excluded_negStepStart0 (negative step, normalised start 0, extent > 1)",
-        "fancy_refines_partial": "Excluded_fancyRawIndex / Excluded_fancyEmpty / Excluded_fancyBcast1",
-        "Statement_mask_supported": "boolean masks are rejected outright (F-dok-boolmask)",
-        "step_refines_partial": "also Excluded_emptyTupleKey (d[()] = v) and Excluded_tupleRawIndex (d[i,] = v on 1-d with i outside [0, dim))",
+        "step_refines_partial": "Excluded = negStepStart0 | tupleRoute (1-d, tuple of ints other than one in-range int) | emptyTupleKey | "
+                                "fancyRawIndex | fancyEmpty | fancyBcast1 | every mask",
     }
     ctx.cov["rule"] = (
         "histories of 1..30 assignments on shapes of rank 1-3 (extents 0..5, size <= 60), fills {0,2}, keys: ints (negative, 4% out of range), "
